@@ -4,6 +4,7 @@ mod g_star;
 mod g_wasm;
 mod g_fp;
 mod g_ggm;
+mod g_interf;
 mod g_pp;
 mod g_sharks;
 mod layout;
@@ -82,6 +83,10 @@ fn main() {
           g_sharks::gen_bad_chunks(&mut out);
         }
         _ => {}
+      }
+      // results must not depend on what ran before on the same thread / object (calls of this property judged)
+      if only.is_none() {
+        g_interf::gen(prop, seed, thorough, &mut out);
       }
       }));
       if run.is_err() {
